@@ -83,7 +83,11 @@ def eval_case(case, prims):
     if outcome == "return":
         for label, f in case.ensures.items():
             try:
-                checks["post:" + label] = bool(f(inp, r))
+                val = f(inp, r)
+                from pyvc.spec import SKIP
+                if val is SKIP:
+                    continue
+                checks["post:" + label] = bool(val)
             except Exception as ex:
                 checks["post:" + label] = False
                 out.setdefault("notes", []).append(f"post:{label} not evaluable: {type(ex).__name__}: {ex}")
